@@ -136,6 +136,13 @@ static std::string fmt_abbr(const std::string& a) {
 
 static std::string gen_date(Rng* r) {
   char b[64];
+  if (r->chance(0.15)) {
+    // Rules pushed against (and over) the ends of the year: with a time of up to +-167 h a transition can
+    // fall into the neighbouring year and cross the other rule's transition of that year.
+    static const char* edge[] = {"J365/167", "J365/49", "J365/26", "364/167", "365/100", "J1/-167", "J1/0", "0/-24", "0/0", "M12.5.6/167", "M12.5.0/120",
+                                 "M1.1.0/-167", "M1.1.1/-48", "J1/-1", "J365/24", "J2/-30"};
+    return edge[r->below(sizeof edge / sizeof *edge)];
+  }
   switch (r->below(4)) {
     case 0: snprintf(b, sizeof b, "J%d", static_cast<int>(r->pick(std::vector<int>{1, 59, 60, 61, 100, 300, 365}))); break;
     case 1: snprintf(b, sizeof b, "%d", static_cast<int>(r->pick(std::vector<int>{0, 1, 58, 59, 60, 200, 364, 365}))); break;
